@@ -19,19 +19,53 @@ let parse_decl w =
   | 'F' | 'B' -> Some (KFunc, n) | 'D' | 'S' -> Some (KData, n) | 'P' -> Some (KProto, n)
   | _ -> None
 
-let is_quiet s = match words s with "K" :: _ :: ["q"] -> true | _ -> false
+let is_quiet s = match words s with "K" :: _ :: ["q"] -> true | "J" :: _ :: "q" :: _ -> true | _ -> false
+
+(* an operation of a history: one of the model's [op]s, or a link with a scripted resolver that loads
+   modules itself (C13/Reent.v [step_re]) *)
+type hop = Op of op | LinkRe of (nat * (((ikind * nat) list) list * ransw)) list * (nat -> nat option)
+
+let mask_resolver m = (fun n -> let i = int_of_nat n in
+                        if i < 8 && (m lsr i) land 1 = 1 then Some (nat_of_int (100 + i)) else None)
+
+(* J mask iface { @ n ans { + decl* } } *)
+let parse_script ws =
+  let entries = ref [] in
+  let cur = ref None in      (* (n, ans, modules (reversed), current module (reversed) option) *)
+  let flush_mod (n, a, ms, m) = match m with Some d -> (n, a, List.rev d :: ms, None) | None -> (n, a, ms, None) in
+  let flush_entry () = match !cur with
+    | Some c -> let (n, a, ms, _) = flush_mod c in entries := (n, (List.rev ms, a)) :: !entries; cur := None
+    | None -> () in
+  let rec go = function
+    | [] -> flush_entry ()
+    | "@" :: n :: a :: rest ->
+      flush_entry ();
+      let ans = match a.[0] with
+        | 'x' -> RExt (nat_of_int (int_of_string (String.sub a 1 (String.length a - 1))))
+        | 'm' -> RLast
+        | _ -> RNull in
+      cur := Some (nat_of_int (int_of_string n), ans, [], None); go rest
+    | "+" :: rest ->
+      (match !cur with Some c -> let (n, a, ms, _) = flush_mod c in cur := Some (n, a, ms, Some []) | None -> ());
+      go rest
+    | w :: rest ->
+      (match !cur with
+       | Some (n, a, ms, Some d) ->
+         (match parse_decl w with Some x -> cur := Some (n, a, ms, Some (x :: d)) | None -> ())
+       | _ -> ());
+      go rest in
+  go ws; List.rev !entries
 
 let parse_op s =
   match words s with
   | [] -> None
-  | "L" :: ds -> Some (Load (List.filter_map parse_decl ds))
-  | ["X"; n; a] -> Some (LoadExternal (nat_of_int (int_of_string n), nat_of_int (int_of_string a)))
-  | ["R"; b] -> Some (SetRedef (int_of_string b <> 0))
+  | "L" :: ds -> Some (Op (Load (List.filter_map parse_decl ds)))
+  | ["X"; n; a] -> Some (Op (LoadExternal (nat_of_int (int_of_string n), nat_of_int (int_of_string a))))
+  | ["R"; b] -> Some (Op (SetRedef (int_of_string b <> 0)))
   | "K" :: mask :: rest ->
-    let m = int_of_string mask in
-    let r = (fun n -> let i = int_of_nat n in
-              if i < 8 && (m lsr i) land 1 = 1 then Some (nat_of_int (100 + i)) else None) in
-    if rest = ["n"] then Some (LinkNoIface r) else Some (Link r)
+    let r = mask_resolver (int_of_string mask) in
+    if rest = ["n"] then Some (Op (LinkNoIface r)) else Some (Op (Link r))
+  | "J" :: mask :: _ :: rest -> Some (LinkRe (parse_script rest, mask_resolver (int_of_string mask)))
   | _ -> failwith ("bad op: " ^ s)
 
 let err_name = function
@@ -82,6 +116,28 @@ let show_res res =
   "res=[" ^ String.concat "," (List.map (fun (n, a) ->
       Printf.sprintf "n%d:%d" (int_of_nat n) (int_of_nat a)) res) ^ "]"
 
+let show_ref = function
+  | DExt a -> Printf.sprintf "X%d" (int_of_nat a)
+  | DMod (id, idx, (KFunc | KData)) -> Printf.sprintf "M%d.%d" (int_of_nat id) (int_of_nat idx)
+  | DMod (_, _, _) -> "null"
+
+let show_rlog res =
+  "res=[" ^ String.concat "," (List.map (fun (n, d) -> Printf.sprintf "n%d:%s" (int_of_nat n) (show_ref d)) res) ^ "]"
+
+(* what a link with a scripted resolver made visible (for [clash_mark]'s log): the exported items of
+   the script modules that were loaded (they are queued or linked afterwards) and the answers *)
+let pubs_of_re before sc (s' : state) res =
+  let loaded id = List.exists (fun (i, _) -> i = id) s'.linked || List.exists (fun m -> m.lid = id) s'.to_link in
+  let id = ref before.nloads in
+  let out = ref [] in
+  List.iter (fun (_, (dss, _)) ->
+      List.iter (fun ds ->
+          (match build ds with
+           | Inl m -> if loaded !id then out := !out @ exported !id m
+           | Inr _ -> ());
+          id := S !id) dss) sc;
+  !out @ res
+
 let run_history line =
   let ops = List.filter_map (fun s -> match parse_op s with Some o -> Some (o, is_quiet s) | None -> None)
       (String.split_on_char ';' line) in
@@ -91,11 +147,35 @@ let run_history line =
   let log = ref [] in      (* pubs of the trace so far: every definition made visible, oldest first *)
   let first = ref true in
   (try
-     List.iter (fun (o, quiet) ->
+     List.iter (fun (ho, quiet) ->
          let before = !st in
+         let log_before = !log in
+         let show_linked (s' : state) =
+           let live id = List.exists (fun (i, _) -> int_of_nat i = id) s'.linked in
+           if not quiet then List.iter (fun (id, bs) ->
+               Buffer.add_string b (Printf.sprintf " m%d{%s}" (int_of_nat id)
+                                      (String.concat " " (List.map (show_binding ~nulled:(List.mem id !nulled) live true) bs))))
+               s'.linked in
+         match ho with
+         | LinkRe (sc, fb) ->
+           let (s', out) = step_re !st sc fb in
+           st := s';
+           (match out with RSkipped -> raise Exit | _ -> ());
+           if not !first then Buffer.add_string b " | ";
+           first := false;
+           (match out with
+            | RLinked (_, res) ->
+              log := !log @ pubs_of_re before sc s' res;
+              Buffer.add_string b ("ok " ^ show_rlog res);
+              show_linked s'
+            | RFailed (e, res) ->
+              log := !log @ pubs_of_re before sc s' res;
+              Buffer.add_string b ("E:" ^ err_name e ^ " " ^ show_rlog res)
+            | RBuildErr e -> Buffer.add_string b ("E:" ^ err_name e)
+            | RSkipped -> ())
+         | Op o ->
          let (s', out) = step (not pinned) !st o in
          st := s';
-         let log_before = !log in
          log := !log @ pubs_of_step before.nloads o out;
          (match out with
           | OSkipped -> raise Exit
